@@ -1846,15 +1846,20 @@ bool isConstrainedSystemFullyActuated(
   CS.GPT = CS.G*CS.P.transpose();
 
   CS.GPT_full_qr.compute(CS.GPT);
-  unsigned int r = unsigned(CS.GPT_full_qr.rank());
 
-  //rank() counts the pivots relative to the largest one: if the unactuated
-  //columns of G vanish up to rounding (the constraints do not depend on the
-  //unactuated coordinates) the largest pivot is itself rounding noise.
-  if(CS.GPT_full_qr.maxPivot() <= CS.G.norm()
-      * std::numeric_limits<double>::epsilon()
-      * double(std::max(CS.GPT.rows(),CS.GPT.cols()))) {
-    r = 0;
+  //The entries of G carry rounding errors of a few units in the last place
+  //relative to the size of G, and unactuated columns can vanish by
+  //cancellation (constraints that do not depend on an unactuated
+  //coordinate). rank() counts the pivots relative to the largest one with a
+  //threshold of a few epsilon, which counts such noise as rank: count the
+  //pivots that are significant on the scale of G instead.
+  double pivotTol = CS.G.norm() * std::numeric_limits<double>::epsilon()
+                    * 1.0e3 * double(std::max(CS.GPT.rows(),CS.GPT.cols()));
+  unsigned int r = 0;
+  for(int i = 0; i < std::min(CS.GPT.rows(),CS.GPT.cols()); ++i) {
+    if(fabs(CS.GPT_full_qr.matrixQR()(i,i)) > pivotTol) {
+      ++r;
+    }
   }
 
   bool isCompatible = false;
